@@ -1314,8 +1314,11 @@ static void union_initializer(Token **rest, Token *tok, Initializer *init) {
 //             | struct-initializer | union-initializer
 //             | assign
 static void initializer2(Token **rest, Token *tok, Initializer *init) {
+  // A string literal initializes the array only if it is the whole
+  // initializer; in '"ab"[0]' it is the start of an expression.
   if (init->ty->kind == TY_ARRAY && is_integer(init->ty->base) &&
-      tok->kind == TK_STR) {
+      tok->kind == TK_STR &&
+      (equal(tok->next, ",") || equal(tok->next, "}") || equal(tok->next, ";"))) {
     string_initializer(rest, tok, init);
     return;
   }
